@@ -338,6 +338,15 @@ def run(ck: Check):
                 scs.append(base(f"fe-{k}-{kind}-{int(ac)}", {str(k): f}, auto_commit=ac))
                 fe += 1
     ck.extra["fault_enumeration_runs"] = fe
+    # a subscribed topic grows while a rebalance is running (at 50 instants from just before the second member's join to the end of the rebalance,
+    # slow callbacks widen the windows): afterwards the group must rebalance once more and own the new partition
+    for j, dt in enumerate([x * 0.03 for x in range(-3, 47)]):
+        sc = base(f"grow-{j}", {}, auto_commit=bool(j % 2))
+        for c in sc["consumers"]:
+            c["cb_delay"] = [0.01, 0.2, 0.4][j % 3]
+            c["metadata_max_age_ms"] = 100
+        sc["cluster_events"] = [{"at": round(1.5 + dt, 3), "op": "add_partitions", "topic": "t0", "n": 1}]
+        scs.append(sc)
     results = conssim.run_scenarios(scs, timeout=ck.n(900, 3000))
     nbad = 0
     hist = {"failed_runs": 0, "with_live_members": 0}
